@@ -8,11 +8,14 @@ from props import generic
 
 def oracle(ctx, stores):
     seqs = ["a", "e", "l", "ae", "la", "ael", "lae", "aalel", "eeaall", "lllaaa"]
-    cmds, pick = [], []
+    cmds, pick, stores2 = [], [], []
     for f, b, tag in stores:
-        s = ctx.rng.choice(seqs)
-        pick.append(s)
-        cmds.append(lib.store_cmd("rerun %s" % s, f, b))
+        # every program gets one sequence that starts with a value-analysis run and one random sequence
+        for s in (ctx.rng.choice(["a", "ae", "ael", "aea"]), ctx.rng.choice(seqs)):
+            pick.append(s)
+            stores2.append((f, b, tag))
+            cmds.append(lib.store_cmd("rerun %s" % s, f, b))
+    stores = stores2
     out = lib.run_impl(ctx, cmds, tag="rerun", limit_ms=15000)
     bad = []
     hist = {}
